@@ -15,7 +15,9 @@ Inductive ccase :=
 | CIndex (tys : list mty) (i : Z)          (* ntuple[i] *)
 | CField (fs : list (string * mty)) (k : string)
 | CUnzip (ea eb : mty) (n : Z)             (* unzip(zip(a, b)) *)
-| CMap (ea ret : mty) (n : Z).             (* a.map(f), f : ea -> ret *)
+| CMap (ea ret : mty) (n : Z)              (* a.map(f), f : ea -> ret *)
+| CUnsized (inner : bool) (param_first : bool) (ea eb : mty) (m : Z).
+    (* inside a function: zip / inner product of an array PARAMETER (no size) with a captured array of size m *)
 
 Inductive expect := MustReject | Accept (result : mty) (index : option Z).
 
@@ -60,6 +62,7 @@ Definition coll_spec (c : ccase) : expect :=
   | CField fs k => match assoc_ty k fs with Some t => Accept t None | None => MustReject end
   | CUnzip ea eb n => Accept (TyTuple (TyArray ea (Some n)) (TyArray eb (Some n))) None
   | CMap ea ret n => Accept (TyArray ret (Some n)) None
+  | CUnsized _ _ _ _ _ => MustReject       (* no size and size m are different sizes *)
   end.
 
 (* what the implementation did: rejected, or the type of the single output (and the index
